@@ -21,7 +21,7 @@ OBJ_OPTS = [{}, {"additional_properties": True}, {"aliaser": "prefix"}, {"all_re
 
 def jobs(prop, tier, seed):
     out = []
-    for pid in pools.ids("data", tier):
+    for pid in pools.ids("data", tier) + pools.random_ids(seed, 8 if tier == "quick" else 60):
         spec, _ = pools.get("data", pid)
         if any(s.k == "obj" and any(f.fall_back for f in s.a) for s in walk(spec)):
             continue  # fall_back_on_default metadata is not in the type space of C06
